@@ -60,7 +60,7 @@ def _nparams(t, d, m):
 
 
 @st.composite
-def proj_case(draw, tier, classes=("near", "near", "far", "physical")):
+def proj_case(draw, tier, classes=("near", "near", "far", "physical", "gain", "tiny")):
     t = draw(st.sampled_from(["state", "povm", "gate", "mprocess"]))
     if tier == "quick":
         shapes = ("1q", "1q", "qutrit") if t in ("state", "povm") else ("1q",)
@@ -86,6 +86,13 @@ def proj_case(draw, tier, classes=("near", "near", "far", "physical")):
     elif cls == "far":
         case["noise"] = draw(gen.raw(npar))
         case["noise_size"] = draw(gen.log_uniform(1.0, 1e2))
+    elif cls == "tiny":
+        # perturbations between rounding noise and the "near" class (numbers typed with a few digits, accumulated error)
+        case["noise"] = draw(gen.raw(npar))
+        case["noise_size"] = draw(gen.log_uniform(1e-12, 1e-4))
+    elif cls == "gain":
+        # a physical object times a common factor 1 + g: un-normalised in the identity direction only
+        case["gain"] = draw(st.sampled_from([-1.0, 1.0])) * draw(gen.log_uniform(1e-9, 1e-2))
     return case
 
 
@@ -93,7 +100,9 @@ def input_vector(case):
     obj = case["obj"]
     basis = gen.ref_basis(obj["shape"])
     x = gen.stacked_reference(obj, basis).copy()
-    if case["class"] in ("near", "far"):
+    if case["class"] == "gain":
+        x = x * (1.0 + case["gain"])
+    if case["class"] in ("near", "far", "tiny"):
         nz = np.asarray(case["noise"], dtype=float)
         nrm = np.linalg.norm(nz)
         if nrm < 1e-9:
@@ -343,7 +352,7 @@ FACETS = {
     "projection": {
         "strategy": proj_case_with_competitors,
         "check": check_projection,
-        "budget": {"quick": {"examples": 640, "shards": 16}, "thorough": {"examples": 24000, "shards": 16}},
+        "budget": {"quick": {"examples": 960, "shards": 16}, "thorough": {"examples": 24000, "shards": 16}},
         "nontrivial": "input violates both constraints (> 1e-6 each) and >= 3 sweeps were needed",
         "min_nontrivial": 30,
     },
